@@ -69,6 +69,10 @@ func verifLen(r *rand.Rand) int {
 		return 252 + r.Intn(3)
 	case 2:
 		return 300
+	case 3:
+		if r.Intn(4) == 0 {
+			return []int{1023, 1024, 1025, 2050}[r.Intn(4)] // around the decoders' pre-allocation cap
+		}
 	}
 	return 1 + r.Intn(4)
 }
